@@ -12,7 +12,7 @@ construct <simple 0|1> <N> cfg <k>=<bits> … args <k>=<bits> …
        | `err missing|negative|bound|arity|empty|check:<i>`
 name <code point>,<code point>,…        create_groove_by_type_name's normalisation of the name (`-` = empty string)
       -> `<normalised, as code points> <resolved class | ->`
-spline <ndim> <row>;<row>;…             row = <bits>,<bits>,… : the shape checks of SplineGroove.__init__ -> `1` | `0`
+spline <ndim> <row>;<row>;…             row = <bits>,<bits>,… : the shape checks of SplineGroove.__init__ (with the generated face test) -> `1` | `0`
 tables                                   -> the names of the generated checks, in order
 ```
 floats are IEEE bit patterns (decimal `UInt64`).
@@ -90,7 +90,7 @@ def handleSpline (rest : List String) : String :=
   match rest with
   | [nd, rows] =>
     match nd.toNat?, (if rows = "-" then some [] else (rows.splitOn ";").mapM row?) with
-    | some n, some rs => if splineAccepts Gen.C03.splineChecks n rs then "1" else "0"
+    | some n, some rs => if splineAccepts Gen.C03.splineFace Gen.C03.splineChecks n rs then "1" else "0"
     | _, _ => "bad-op"
   | _ => "bad-op"
 
